@@ -24,8 +24,8 @@ import (
 // reference tree.
 
 type bAtom struct {
-	zero bool
-	v    ssa.Value // integer value …
+	zero  bool
+	v     ssa.Value // integer value …
 	lenOf ssa.Value // … or len(lenOf)
 }
 
@@ -56,6 +56,49 @@ type boundsProver struct {
 	inParam map[*ssa.Parameter]bool
 	lbMemo  map[ssa.Value]int64
 	lbBusy  map[ssa.Value]bool
+	reps    []ssa.Value
+	written map[*ssa.Function]map[*types.Var]bool
+}
+
+// canon maps a load of a struct field to one representative per address
+// expression (go/ssa does no CSE: every `x.f` is a separate value), provided
+// the enclosing function never stores to that field – otherwise two loads may
+// see different values and are kept apart.
+func (bp *boundsProver) canon(v ssa.Value) ssa.Value {
+	u, ok := v.(*ssa.UnOp)
+	if !ok || u.Op != token.MUL {
+		return v
+	}
+	fa, ok := u.X.(*ssa.FieldAddr)
+	if !ok || u.Parent() == nil {
+		return v
+	}
+	fn := u.Parent()
+	if bp.written == nil {
+		bp.written = map[*ssa.Function]map[*types.Var]bool{}
+	}
+	w, ok := bp.written[fn]
+	if !ok {
+		w = map[*types.Var]bool{}
+		allInstrs(fn, func(ins ssa.Instruction) {
+			if st, ok := ins.(*ssa.Store); ok {
+				if f := fieldOf(st.Addr); f != nil {
+					w[f] = true
+				}
+			}
+		})
+		bp.written[fn] = w
+	}
+	if w[fieldOf(fa)] {
+		return v
+	}
+	for _, r := range bp.reps {
+		if r.Parent() == fn && sameSource(r, v) {
+			return r
+		}
+	}
+	bp.reps = append(bp.reps, v)
+	return v
 }
 
 func newBoundsProver(c *Ctx, rel string) *boundsProver {
@@ -102,7 +145,7 @@ func (bp *boundsProver) norm(v ssa.Value) bLin {
 		}
 	case *ssa.Call:
 		if bi, ok := x.Call.Value.(*ssa.Builtin); ok && bi.Name() == "len" {
-			return bLin{bAtom{lenOf: canonSlice(x.Call.Args[0])}, 0}
+			return bLin{bAtom{lenOf: bp.canon(canonSlice(x.Call.Args[0]))}, 0}
 		}
 	case *ssa.Convert:
 		if bt, ok := x.X.Type().Underlying().(*types.Basic); ok && bt.Info()&types.IsInteger != 0 {
@@ -111,7 +154,7 @@ func (bp *boundsProver) norm(v ssa.Value) bLin {
 			}
 		}
 	}
-	return bLin{bAtom{v: v}, 0}
+	return bLin{bAtom{v: bp.canon(v)}, 0}
 }
 
 func isIntVal(v ssa.Value) bool {
